@@ -196,7 +196,10 @@ class SsbScriptCompilerListener(SsbScriptListener):
 
     def exitPos_argument(self, ctx: SsbScriptParser.Pos_argumentContext) -> None:
         self._is_processing_argument = False
-        self._turn_next_op_into_label_jump_for = None
+        if self._turn_next_op_into_label_jump_for is not None:
+            # The jump target becomes the last parameter of the operation; a marker followed by further arguments
+            # would be dropped silently.
+            raise SsbCompilerError(_("A jump marker must be the last argument of an operation."))
         if self._argument_type == ListenerArgType.JUMP:
             label_name = self._argument_value
             assert isinstance(label_name, str)
